@@ -128,6 +128,7 @@ def run_once(prog: list[dict[str, Any]], chooser: Chooser) -> dict[str, Any]:
                 for t, T in metricsfam.TYPES.items():
                     snap["read"][t] = metricsfam.plain(metrics.read(T))
                 snap["view"] = sorted(metricsfam.plain(m) for m in metrics.metrics(merge=metricsfam.view_merge_for(name)) if not isinstance(m, metricsfam.Mf))
+                snap["view_filtered"] = sorted(metricsfam.plain(m) for m in metrics.metrics(merge=metricsfam.filtering_view_merge) if not isinstance(m, metricsfam.Mf))
                 snap["own"] = sorted(metricsfam.plain(m) for m in metrics.metrics() if not isinstance(m, metricsfam.Mf))
                 snap["read_default"] = metricsfam.plain(metrics.read(metricsfam.Mr, default=metricsfam.Mr(v=-1)))
             except BaseException as exc:  # noqa: BLE001
@@ -298,6 +299,13 @@ def judge(R: Recorder, tree: dict[str, Any], prog: list[dict[str, Any]], chooser
         want_view = sorted(mv.values())
         R.monitor("merged-view", reads["view"] == want_view, where={**wi, "kind": "merged-view-mismatch", "nested": len(attached[i]) > 0},
                   detail=f"{name}: metrics(merge=view) = {reads['view']}, reference {want_view}; attached children (creation order) {attached[i]}", case=rec)
+        want_filtered = sorted(v for t, v in mv.items() if t != "Mr" or "Mr" in own[name])
+        if "Mr" in own[name]:
+            want_filtered = sorted([*(v for t, v in mv.items() if t != "Mr"), own[name]["Mr"]])
+        if "Mr" in mv and "Mr" not in own[name]:
+            R.count("nested_values_filtered_out_of_a_view")
+        R.monitor("merged-view", reads.get("view_filtered") == want_filtered, where={**wi, "kind": "filtered-view-mismatch", "nested": len(attached[i]) > 0},
+                  detail=f"{name}: metrics(merge=<leaves nested Mr out>) = {reads.get('view_filtered')}, reference {want_filtered}", case=rec)
         want_own = sorted(v for t, v in own[name].items() if t != "Mf")
         R.monitor("merged-view", reads["own"] == want_own, where={**wi, "kind": "own-values-mismatch"}, detail=f"{name}: metrics() = {reads['own']}, reference {want_own}", case=rec)
         want_rd = own[name].get("Mr", ("Mr", -1))
